@@ -23,6 +23,19 @@ ChunkStore::ChunkStore(Config config)
         storage_root_ = std::filesystem::path(config.storage_directory.empty() ? "storage" : config.storage_directory);
         if (!ensure_storage_directory()) {
             persistent_enabled_ = false;
+        } else if (wipe_on_expiry_) {
+            // Chunk files are never loaded back, so anything left by an earlier instance
+            // (or by an interrupted store or wipe) can only outlive its chunk: wipe it now.
+            std::error_code ec;
+            std::vector<std::filesystem::path> leftovers;
+            for (std::filesystem::directory_iterator it(storage_root_, ec), end; !ec && it != end; it.increment(ec)) {
+                if (it->is_regular_file(ec) && it->path().extension() == ".chunk") {
+                    leftovers.push_back(it->path());
+                }
+            }
+            for (const auto& path : leftovers) {
+                secure_wipe_file(path);
+            }
         }
     }
 }
